@@ -542,8 +542,6 @@ impl Vm {
     }
 
     fn run(&mut self) -> Result<Value, Error> {
-        debug_assert!(self.modules.len() == 1);
-
         loop {
             #[cfg(feature = "verif_hooks")]
             if let Some(error) = self.verif_step() {
